@@ -79,8 +79,13 @@ class ClientConnectionJob(object):
     def denyConnection(self, reason):
         log.warning("client connection was denied: " + reason)
         # return failed handshake
-        self.daemon._handshake(self.csock, denied_reason=reason)
-        self.csock.close()
+        try:
+            self.daemon._handshake(self.csock, denied_reason=reason)
+        except Exception as x:
+            # this runs in the server loop itself: a refused client that is gone already (or sent garbage) must not end it
+            log.debug("error while refusing connection of %s: %s", self.caddr, x)
+        finally:
+            self.csock.close()
 
 
 class Housekeeper(threading.Thread):
